@@ -314,7 +314,7 @@ def mutate(r, data, kind=None):
         if ms:
             m = r.choice(ms)
             if fam == "long-name":
-                rep = long_name(r, r.choice([9, 300, 9000, 8191, 8192, 255, 256]))
+                rep = long_name(r, r.choice([9, 40, 90, 300, 9000, 8191, 8192, 255, 256]))
                 if r.random() < 0.5:      # every occurrence, so that the file stays coherent
                     return re.sub(rb"(?<![A-Za-z_0-9])" + re.escape(m.group(0)) + rb"(?![A-Za-z_0-9])", rep, data), fam
                 return data[:m.start()] + rep + data[m.end():], fam
@@ -433,8 +433,16 @@ def gen_mps_lines(r):
         return bytes(r.choice(b"ABCXYZabc_019.-") for _ in range(r.randint(1, n)))
     lines = []
     for _ in range(r.randint(0, 6)):
-        k = r.randrange(16)
-        if k == 0:
+        k = r.randrange(19)
+        if k == 16:
+            # few long fields: the fifth one lies behind column 80
+            l = b" " + b" ".join(bytes(r.choice(b"ABCxyz_01") for _ in range(r.randint(15, 60))) for _ in range(r.randint(2, 6)))
+        elif k == 17:
+            # a field that starts before column 80 and ends behind it
+            l = b" " * r.randint(1, 70) + b"F" * r.randint(5, 100) + b" " + field() + b"  " + field()
+        elif k == 18:
+            l = mps_line(True, b"", field(), field(), r.choice(NUMS)).ljust(r.choice([79, 80, 81, 90])) + b" " + field() + b" " + r.choice(NUMS)
+        elif k == 0:
             l = r.choice([b"", b" ", b"   \t ", b"\r", b"\t"])
         elif k == 1:
             l = r.choice([b"*", b"* comment", b"*ROWS", b" * not a comment"])
